@@ -123,11 +123,15 @@ def direction_mutated(spec1, spec2, decoded_origin):
     attributes and encoded again: the bytes must describe the object as it is NOW."""
     import copy
     case = {'kind': 'm', 'spec': spec1, 'spec2': spec2, 'decoded_origin': decoded_origin}
-    obj = g.build(spec1)
-    raw1 = obj.encode()
-    obj.total_length()
-    if decoded_origin:
-        obj = g.pdu_class(spec1['t']).decode(raw1)
+    try:
+        obj = g.build(spec1)
+        raw1 = obj.encode()
+        obj.total_length()
+        if decoded_origin:
+            obj = g.pdu_class(spec1['t']).decode(raw1)
+    except Exception as exc:
+        raise Violation('C02:m:first-encoding:%s' % lib_frame(exc), 'building, encoding and decoding the PDU before it '
+                        'is modified raised %r' % (exc,), case)
     expected = copy.deepcopy(spec1)
     if spec1['t'] in (1, 2):
         ui2 = [it for it in spec2['items'] if it['t'] == 0x50]
